@@ -148,7 +148,7 @@ class Hist:
     def __init__(self, chk, binary, shim, model, rng, cfg):
         self.chk, self.rng, self.cfg = chk, rng, cfg
         self.w = World(binary, shim, rng, nd=cfg['nd'], np_=cfg['np'], order=cfg['order'], fake_uuid=cfg['uuid'], multi=cfg['multi'], where=cfg['where'])
-        self.model = model
+        self.model = None if cfg['multi'] else model     # the model scans the disks one after the other: threaded histories are judged by the oracles only
         self.recorded = None        # view() of the tree at the last sync (what the array is supposed to know)
         self.ncmd = 0
         self.nmodel = 0
@@ -221,8 +221,17 @@ class Hist:
         else:
             r = w.run('sync', *(['-B', str(self.rng.randint(1, 3))] if partial else [])); self.ncmd += 1
         if r.rc != 0:
-            self.bad('sync_fails', 'sync fails (exit %d) after ordinary file-system changes: %s' % (r.rc, (r.err or r.out)[-300:]), out=r.out[-800:], err=r.err[-800:])
-            return False
+            errs = r.tag('error:')
+            if errs and all('Unexpected data change' in t for t in errs):
+                # copy detection met a file with the name, size and time-stamp of another file's (old) version but other bytes:
+                # the refusal is what C19 demands; the documented way out must work and then everything else is judged as usual
+                self.stats['decoy_refusals'] = self.stats.get('decoy_refusals', 0) + 1
+                self.pending_drift = None
+                r = w.run('sync', '-N'); self.ncmd += 1
+                partial = False
+            if r.rc != 0:
+                self.bad('sync_fails', 'sync fails (exit %d) after ordinary file-system changes: %s' % (r.rc, (r.tag('error:')[:2] or (r.err or r.out)[-300:])), out=r.out[-800:], err=r.err[-800:])
+                return False
         st2 = w.content()
         errs = a.check_map(st2)
         perr, n = a.check_parity(st2)
@@ -432,7 +441,7 @@ def main(tier, replay=None):
                             'on %d arrays, scan orders alpha/inode/dir/physical, with and without usable inodes (fake UUIDs), threaded and sequential scans, tmpfs and ext4 (inode reuse); '
                             'per step diff/sync/diff/list/check judged by the harness walk; non-trivial = steps in which the tree differed from the recorded state' % len(cfgs),
                     'corpus_cases': ncorpus, 'histories': len(cfgs), 'steps': stats.get('steps', 0), 'diff_exit2': stats.get('diff2', 0), 'diff_exit0': stats.get('diff0', 0),
-                    'partial_syncs': stats.get('partial', 0), 'invisible_rewrites_probed': stats.get('invisible', 0), 'inode_reuses_observed': stats.get('inode_reuse', 0),
+                    'partial_syncs': stats.get('partial', 0), 'decoy_refusals_then_nocopy': stats.get('decoy_refusals', 0), 'invisible_rewrites_probed': stats.get('invisible', 0), 'inode_reuses_observed': stats.get('inode_reuse', 0),
                     'scan_counters_seen': counts, 'model_predictions_compared': tot['model'], 'traces_validated_against_impl': tot['model']})
     chk.cov['samples'] = samples
     chk.notes.append('`list` prints files and links only (cmdline/list.c has no loop over the directory list): the empty directories of the property statement are judged on the decoded content file instead')
